@@ -109,7 +109,7 @@ class C19(Prop):
             "and 'GET ' never appears in any write; ws uses the 'http' entry, wss the 'https' entry, empty mapping = direct. "
             "Non-trivial = reply split across >= 2 reads, or non-200, or a fault.")
     assumptions = ("the proxy's reply is complete before any tunnelled byte is sent (TLS/WebSocket need a round trip first)",)
-    examples = {"quick": 4000, "thorough": 60000}
+    examples = {"quick": 4000, "thorough": 200000}
 
     def strategy(self, tier):
         proxy = st.fixed_dictionaries({
